@@ -24,6 +24,7 @@ def rule_a(ctx):
 
 def rule_b(ctx):
     F = ctx.F
+    _FX[0] = F
     rid = "C12.b"
     ctx.rule(rid, "lazy slot initialisation tolerates a retry after a rejected addition: no explicit panic site is reachable "
                   "from any Exfiltrator::init, and a non-trivial init publishes its pointer only over the uninitialised (null) state",
@@ -60,8 +61,21 @@ def rule_b(ctx):
                             t["sp"], "init must observe the uninitialised state (CAS from null)")
 
 
+_FX = [None]
+
+
 def _is_null(e):
     e = deep_strip(e)
+    if e[0] == "field" and deep_strip(e[1])[0] == "const" and deep_strip(e[1])[2] and _FX[0] is not None:
+        # a field of a named constant (`ChanPtr::UNSET.0`): read the constant's value
+        try:
+            v = _FX[0].const(deep_strip(e[1])[2])["val"]
+            if isinstance(v, dict) and "fields" in v:
+                for k, (fname, fval) in enumerate(v["fields"]):
+                    if k == e[3] or fname == e[2]:
+                        return fval == 0
+        except Exception:
+            return False
     if e[0] == "const":
         return e[1] == 0
     if e[0] == "call" and e[3] and e[3].startswith("core::ptr::null"):
